@@ -89,23 +89,29 @@ func PayloadID(b []byte) string {
 func (w *World) Ms(t time.Time) int64 { return int64(t.Sub(w.Epoch) / time.Millisecond) }
 
 func (w *World) hook(point string, args ...interface{}) {
-	w.mu.Lock()
-	w.cnt[point]++
-	switch point {
-	case "conn.pkt.done", "conn.read.err", "shutdown.done":
-		if len(args) > 0 {
-			w.cnt[point+":"+fmt.Sprint(args[0])]++
+	// the counter that settle() observes and the event are one critical section of the recorder: whoever sees the
+	// counter has its own later events ordered after this one (a counter bumped before its event was written let a
+	// "quiescent" overtake a "shutdown.done" on a loaded machine)
+	w.R.Do(func() rec.Ev {
+		w.mu.Lock()
+		w.cnt[point]++
+		switch point {
+		case "conn.pkt.done", "conn.read.err", "shutdown.done":
+			if len(args) > 0 {
+				w.cnt[point+":"+fmt.Sprint(args[0])]++
+			}
 		}
-	}
-	w.mu.Unlock()
-	switch point {
-	case "shutdown.done":
-		w.R.Emit(rec.Ev{"op": "shutdown.done", "s": fmt.Sprint(args[0])})
-	case "publish.done":
-		w.R.Emit(rec.Ev{"op": "publish.done", "s": fmt.Sprint(args[0]), "ok": args[1] == nil})
-	case "writer.done":
-		w.R.Emit(rec.Ev{"op": "writer.done", "off": args[0], "ok": args[1] == nil})
-	}
+		w.mu.Unlock()
+		switch point {
+		case "shutdown.done":
+			return rec.Ev{"op": "shutdown.done", "s": fmt.Sprint(args[0])}
+		case "publish.done":
+			return rec.Ev{"op": "publish.done", "s": fmt.Sprint(args[0]), "ok": args[1] == nil}
+		case "writer.done":
+			return rec.Ev{"op": "writer.done", "off": args[0], "ok": args[1] == nil}
+		}
+		return nil
+	})
 	select {
 	case w.cntCh <- struct{}{}:
 	default:
@@ -587,10 +593,12 @@ func (w *World) Open(c int, nodeID int) *Client {
 		}
 	}
 	k.OnClose = func() {
-		cl.mu.Lock()
-		cl.closed = true
-		cl.mu.Unlock()
-		w.R.Emit(rec.Ev{"op": "srv.close", "c": c})
+		w.R.Do(func() rec.Ev { // flag and event together, see hook()
+			cl.mu.Lock()
+			cl.closed = true
+			cl.mu.Unlock()
+			return rec.Ev{"op": "srv.close", "c": c}
+		})
 		w.poke()
 	}
 	k.OnDeadline = func(ms int64) { w.R.Emit(rec.Ev{"op": "conn.deadline", "c": c, "ms": ms}) }
